@@ -25,16 +25,17 @@ def ok(cond):
 
 
 def harness(props, targets, bound, items=None, budget=None, glue=(), outside=(), per_path=None,
-            tiers=('quick', 'thorough'), render=None, note=''):
+            tiers=('quick', 'thorough'), render=None, note='', hunt=False):
     """Register a harness.  props: property ids it decides; targets: 'module:qualname' of the real
     functions it is meant to drive (call-counted by the worker); bound: human-readable bound;
     items: list (or callable returning list) of catalogue items the harness is instantiated for;
-    budget: (quick_s, thorough_s) CPU budget per instance; glue: extra glue installers."""
+    budget: (quick_s, thorough_s) CPU budget per instance; glue: extra glue installers;
+    hunt: bug-hunting harness -- its input is realised at a C boundary, so it can refute but never discharge."""
     def deco(fn):
         REGISTRY[(fn.__module__, fn.__name__)] = dict(
             fn=fn, props=list(props), targets=list(targets), bound=bound, items=items,
             budget=budget or (60, 300), glue=list(glue), outside=list(outside), per_path=per_path,
-            tiers=tuple(tiers), render=render, note=note)
+            tiers=tuple(tiers), render=render, note=note, hunt=hunt)
         return fn
     return deco
 
@@ -67,7 +68,24 @@ class Pool:
         return self._take('f')
 
     def j(self):
-        return self._take('j')
+        """an arbitrary J0 value (None | bool | int | str), typed lazily from the primitive pools"""
+        k = self.choice(4)
+        if k == 0:
+            return None
+        if k == 1:
+            return self.bool()
+        if k == 2:
+            return self.int()
+        return self.str()
+
+    def jn(self):
+        """an arbitrary non-string J0 value (None | bool | int)"""
+        k = self.choice(3)
+        if k == 0:
+            return None
+        if k == 1:
+            return self.bool()
+        return self.int()
 
     def choice(self, n):
         """an index in range(n) decided by a chain of symbolic bools (no wasted paths)"""
